@@ -59,6 +59,7 @@ type Frame struct {
 	Result  Value
 	EntryFull *FullSnapshot
 	Mods    []modLoc
+	Measure []*Term // value of the function's decreases clause at entry
 	CallCount map[string]int
 	RetTo   ssa.Value // call instruction in the caller that receives the result (nil for top)
 	LoopIn  map[*ssa.BasicBlock]*loopEntry
